@@ -102,6 +102,7 @@ type driver struct {
 	budget     time.Duration
 	only       map[string]bool
 	flaky      bool
+	noShrink   bool
 	bdir       string
 	work       string
 	bins       map[string]string
@@ -417,6 +418,16 @@ func (d *driver) known() map[string]finding {
 	return out
 }
 
+func knownNorm(known map[string]finding, sig string, out *finding) bool {
+	for k, f := range known {
+		if normSig(k) == normSig(sig) {
+			*out = f
+			return true
+		}
+	}
+	return false
+}
+
 // ---------------------------------------------------------------- check
 
 type violation struct {
@@ -609,21 +620,27 @@ func (d *driver) check() int {
 	groups := map[string][]violation{}
 	var order []string
 	for _, v := range viols {
-		if f, ok := known[v.res.Sig]; ok {
+		if f, ok := known[v.res.Sig]; ok || knownNorm(known, v.res.Sig, &f) {
 			if !knownPrinted[v.res.Sig] {
 				knownPrinted[v.res.Sig] = true
 				fmt.Printf("KNOWN-FINDING: property=%s %s\n", d.prop, f.What)
 			}
 			continue
 		}
-		key := v.res.Oracle + "/" + v.res.Sig
+		key := v.res.Oracle + "/" + normSig(v.res.Sig)
 		if groups[key] == nil {
 			order = append(order, key)
 		}
 		groups[key] = append(groups[key], v)
 	}
-	for _, key := range order {
+	for gi, key := range order {
 		g := groups[key]
+		if gi >= 12 {
+			// plenty has been reported already; do not spend the time on replaying more classes
+			fmt.Printf("[%s] note: %d further finding class(es) not replayed, e.g. %s: %s\n", d.prop, len(order)-gi, key, firstLine(g[0].res.Msg))
+			break
+		}
+		d.noShrink = gi >= 4 // minimise the first few classes only
 		// prefer findings of the fully controlled builds
 		sort.SliceStable(g, func(i, j int) bool {
 			return strings.HasPrefix(g[i].build, "instr") && !strings.HasPrefix(g[j].build, "instr")
@@ -668,6 +685,25 @@ func (d *driver) check() int {
 		fmt.Printf("[%s] OK: %d runs (%d non-trivial, %d distinct) in %.1fs, %d known finding(s)\n", d.prop, ev.runs, ev.nontrivial, ev.distinct, time.Since(d.t0).Seconds(), len(knownPrinted))
 	}
 	return exit
+}
+
+// normSig replaces every run of digits by '#': panic texts and positions vary
+// from input to input without being a different kind of finding.
+func normSig(s string) string {
+	var b strings.Builder
+	prev := false
+	for _, c := range s {
+		if c >= '0' && c <= '9' {
+			if !prev {
+				b.WriteByte('#')
+			}
+			prev = true
+			continue
+		}
+		prev = false
+		b.WriteRune(c)
+	}
+	return b.String()
 }
 
 func firstLine(s string) string {
@@ -950,7 +986,7 @@ func (d *driver) report(v violation) (path string, confirmed bool, err error) {
 		if v.res.Oracle == "PANIC" {
 			return crash != "" && panicSig(crash) == v.res.Sig
 		}
-		return r != nil && r.Verdict == core.Violation && r.Oracle == v.res.Oracle && r.Sig == v.res.Sig
+		return r != nil && r.Verdict == core.Violation && r.Oracle == v.res.Oracle && normSig(r.Sig) == normSig(v.res.Sig)
 	}
 	r, crash, e := d.runScenario(v.build, raw, true)
 	if e != nil {
@@ -970,7 +1006,7 @@ func (d *driver) report(v violation) (path string, confirmed bool, err error) {
 	}
 	best, bestRes, bestCrash := raw, r, crash
 	steps := 0
-	if d.p.Shrink != nil && v.res.Oracle != "HANG" {
+	if d.p.Shrink != nil && v.res.Oracle != "HANG" && !d.noShrink {
 		deadline := time.Now().Add(60 * time.Second)
 		tried := 0
 	outer:
